@@ -218,6 +218,61 @@ def check_override(i: int, k: int, args: tuple) -> bool:
     return len(c.hits) == n and gen.decode(t) == before
 
 
+class Late(visitor.NodeVisitor):
+    """handlers are attached to / removed from the INSTANCE between visits"""
+
+    def __init__(self):
+        self.hits = []
+
+    def _h(self, node):
+        self.hits.append(node)
+        return self.generic_visit(node)
+
+
+class LateT(visitor.NodeTransformer):
+    pass
+
+
+def check_late(i: int, k: int, args: tuple) -> bool:
+    """dispatch is decided at visit time: a handler attached to a visitor that has already visited a tree is called
+    (exactly once per node of its kind), a removed one is not called any more, a shallow copy of a visitor dispatches to
+    its own handlers, and a transformer that gets its override late behaves like one that had it from the start."""
+    import copy
+    kind = gen.pick(OVERRIDE_KINDS, k)
+    t = gen.build(SHAPES[i]["expr"], args)
+    before = gen.decode(t)
+    n = _count_tokens(before, kind) if kind in TOKEN_KINDS else _count_kind(before, kind)
+    c = Late()
+    c.visit(t)
+    if c.hits:
+        return False
+    setattr(c, "visit_" + kind, c._h)
+    c.visit(t)
+    if len(c.hits) != n:
+        return False
+    c2 = copy.copy(c)
+    c2.hits = []
+    setattr(c2, "visit_" + kind, c2._h)
+    c2.visit(t)
+    if len(c2.hits) != n or len(c.hits) != n:
+        return False
+    delattr(c, "visit_" + kind)
+    c.visit(t)
+    if len(c.hits) != n:
+        return False
+    tr = LateT()
+    r0 = tr.visit(t)
+    if gen.decode(r0) != before:
+        return False
+    setattr(tr, "visit_" + kind, lambda node: MARK[kind])
+    got = tr.visit(t)
+    if kind in TOKEN_KINDS:
+        want = _ref_replace_token(before, kind, type(MARK[kind]).__name__)
+    else:
+        want = ref_replace(before, kind, gen.decode(MARK[kind]))
+    return gen.decode(got) == want and gen.decode(t) == before
+
+
 def _ref_replace_token(d: Any, kind: str, new: str) -> Any:
     if isinstance(d, tuple):
         if d and d[0] in _TOKEN_PARENT and d[1] == kind:
@@ -277,6 +332,62 @@ def check_shipped(i: int, v: int, args: tuple) -> bool:
     except Exception:
         pass
     return gen.decode(t) == before
+
+
+# ---------------------------------------------------------------- long lists
+LONG_KINDS = ["String", "Identifier", "List", "Null", "Integer"]
+LONG_OV = ["String", "Integer", "Identifier", "List", "Null"]
+
+
+def _long_leaf(k: int, j: int) -> Any:
+    kind = gen.pick(LONG_KINDS, k)
+    if kind == "String":
+        return ast.String("s%d" % j)
+    if kind == "Identifier":
+        return ast.Identifier("z%d" % j)
+    if kind == "List":
+        return ast.List([ast.String("q"), ast.Identifier("w"), ast.List([ast.Integer("7")])])
+    if kind == "Null":
+        return ast.Null()
+    return ast.Integer(str(100 + j))
+
+
+def check_long(L: int, host: int, p: int, k1: int, k2: int, ov: int) -> bool:
+    """a list field (List.val / Call.args) with L items: all Integer literals except the item at the symbolic position p
+    (kind k1) and the last item (kind k2); traversal, identity transform, single-kind override and handler counts as in
+    check_core / check_override."""
+    items = []
+    for j in range(L):
+        if j == p:
+            items.append(_long_leaf(k1, j))
+        elif j == L - 1:
+            items.append(_long_leaf(k2, j))
+        else:
+            items.append(ast.Integer(str(j)))
+    if host == 0:
+        t = ast.Compare(ast.In(), ast.Identifier("x"), ast.List(items))
+    else:
+        t = ast.Compare(ast.Eq(), ast.Call(ast.Identifier("f", ("ns",)), items), ast.Null())
+    before = gen.decode(t)
+    rec = Recorder()
+    rec.log = []
+    rec.visit(t)
+    want = ref_preorder(t, [])
+    if len(rec.log) != len(want):
+        return False
+    for (kind, node), w in zip(rec.log, want):
+        if node is not w or kind != type(w).__name__:
+            return False
+    r = visitor.NodeTransformer().visit(t)
+    if gen.decode(r) != before or not (r == t):
+        return False
+    kind = gen.pick(LONG_OV, ov)
+    got = OVERRIDES[kind]().visit(t)
+    if gen.decode(got) != ref_replace(before, kind, gen.decode(MARK[kind])) or gen.decode(t) != before:
+        return False
+    c = CountOne(kind)
+    c.visit(t)
+    return len(c.hits) == _count_kind(before, kind) and gen.decode(t) == before
 
 
 # ---------------------------------------------------------------- ORM visitors (Django, SQLAlchemy ORM / Core)
@@ -381,6 +492,7 @@ def main() -> int:
                   "nesting": "depth <= 1 exhaustive over the leaf set (binary forms over a reduced leaf set), "
                              "depth 2 seeded sample", "override kinds": OVERRIDE_KINDS,
                   "shipped visitors": [n for n, _ in SHIPPED]}
+    run.bounds["late-bound handlers"] = "a handler attached to / removed from a visitor instance between visits, shallow copies, per shape and override kind"
     run.outside = ["strings longer than 1 code point", "nesting deeper than 2",
                    "ORM visitors are checked on 10 fixed trees (incl. named parameters) with symbolic picks only"]
     run.assumptions = ["tree shape concrete per obligation; leaves and operator choices symbolic",
@@ -397,6 +509,9 @@ def main() -> int:
         if i % (3 if run.tier == "quick" else 1) == 0:
             items.append(Item(f"ovr2_{i}", kp, f"({pre}) and 0 <= k < {len(PAIRS)}",
                               f"check_override2({i}, k, {argt})", describe=d, family="two-kind-override"))
+        if i % (4 if run.tier == "quick" else 1) == run.seed % (4 if run.tier == "quick" else 1):
+            items.append(Item(f"late{i}", kp, f"({pre}) and 0 <= k < {len(OVERRIDE_KINDS)}",
+                              f"check_late({i}, k, {argt})", describe=d, family="late-bound-handlers"))
         vp = (params + ", " if params else "") + "v: int"
         sym_v = [j for j, (n, _) in enumerate(SHIPPED) if n not in HASHING]
         items.append(Item(f"ship{i}", vp, f"({pre}) and v in {tuple(sym_v)}",
@@ -422,7 +537,22 @@ def main() -> int:
     for v, (vn, _) in enumerate(ORM_VIS):
         items.append(Item(f"orm_{vn}", "k: int", f"0 <= k < {len(ORM_TREES)}", f"check_orm({v}, k)",
                           describe={"visitor": vn, "trees": len(ORM_TREES)}, family="orm-visitors-no-mutation", isolate=True))
-    header = "from verif.props.c16 import check_core, check_override, check_override2, check_eq, check_shipped, check_orm, POOL\n"
+    longs = [9, 12 + run.seed % 5] if run.tier == "quick" else [8, 9, 17, 33, 65, 129]
+    run.bounds["long lists"] = {"lengths": longs, "hosts": ["List.val under In", "Call.args"],
+                                "items": "Integer literals except one item of symbolic kind at a symbolic position; the last item's kind varies per obligation",
+                                "kinds": LONG_KINDS, "override kinds": LONG_OV}
+    for L in longs:
+        for host in (0, 1):
+            for ov in range(len(LONG_OV)):
+                if L <= 10:
+                    items.append(Item(f"long{L}_{host}_{ov}", "p: int, k1: int", f"0 <= p < {L} and 0 <= k1 < {len(LONG_KINDS)}",
+                                      f"check_long({L}, {host}, p, k1, {(ov + 1 + L) % len(LONG_KINDS)}, {ov})",
+                                      describe={"length": L, "host": ["List", "Call.args"][host], "override": LONG_OV[ov]}, family="long-lists"))
+                else:   # longer lists: the position stays symbolic, the odd item's kind rotates with the obligation
+                    items.append(Item(f"long{L}_{host}_{ov}", "p: int", f"0 <= p < {L}",
+                                      f"check_long({L}, {host}, p, {(ov + 2 + host) % len(LONG_KINDS)}, {(ov + 1 + L) % len(LONG_KINDS)}, {ov})",
+                                      describe={"length": L, "host": ["List", "Call.args"][host], "override": LONG_OV[ov]}, family="long-lists"))
+    header = "from verif.props.c16 import check_core, check_override, check_override2, check_eq, check_shipped, check_orm, check_long, check_late, POOL\n"
     run_items(run, header, items, per_condition_timeout=40 if run.tier == "quick" else 150,
               progress=bool(os.environ.get("VERIF_PROGRESS")))
     return run.finish()
